@@ -119,6 +119,35 @@ pub fn run(ctx: &Ctx, rep: &mut Reporter) -> Json {
                 }
                 _ => Vec::new(),
             };
+            // header lines carrying identifier-shaped values must not influence the identifier
+            const IDS: &[&str] = &[
+                "# pg_map_id: 123e4567-e89b-12d3-a456-426614174000\n",
+                "# pg_map_id: 123e4567e89b12d3a456426614174000\n",
+                "# pg_map_id: {123e4567-e89b-12d3-a456-426614174000}\n",
+                "# pg_map_id: urn:uuid:123e4567-e89b-12d3-a456-426614174000\n",
+                "# pg_map_hash: SHA-256 0123456789abcdef0123456789abcdef0123456789abcdef0123456789abcdef\n",
+                "# uuid: 123e4567-e89b-12d3-a456-426614174000\n",
+                "# compiler: R8\n# compiler_version: 8.2.33\n# min_api: 21\n# pg_map_id: 0a1b2c3\n",
+            ];
+            {
+                let id = *rng.pick(IDS);
+                let mut v = id.as_bytes().to_vec();
+                v.extend_from_slice(&base);
+                let r = guarded(|| {
+                    let with = check_one(&v, "identifier-shaped header", rep, case_idx, &mut log);
+                    let mut w = id.replace("123e4567", "223e4567").into_bytes();
+                    w.extend_from_slice(&base);
+                    w.push(b'#');
+                    let other = check_one(&w, "identifier-shaped header, different body", rep, case_idx, &mut log);
+                    rep.count("inputs_with_identifier_shaped_headers", 2);
+                    if with == other {
+                        rep.violation(case_idx, "uuid-oracle", "two different files with identifier-shaped headers have the same UUID", Json::obj());
+                    }
+                });
+                if let Err(p) = r {
+                    panic_violation(rep, case_idx, "panic", &p, Json::obj());
+                }
+            }
             const PRE: &[&[u8]] = &[b"\xEF\xBB\xBF", b"\xFF\xFE", b"\xFE\xFF", b"\n", b"\r\n", b" ", b"\0", b"#\n", b"\t", b"\xEF\xBB", b"\xEF\xBB\xBF\xEF\xBB\xBF"];
             const SUF: &[&[u8]] = &[b"\n", b"\r\n", b" ", b"\0", b"\n\n", b"\x1a", b"\r", b"\t", b"\xEF\xBB\xBF"];
             let r = guarded(|| {
